@@ -63,3 +63,40 @@ Example stopped_state :
   exists s, run (init 1 [([ODep 0], true)]) [LTask 0 0; LStop 0; LTask 1 0; LTask 1 0] = Some s /\
             r_stop (getr s 0) = true /\ s_tasks s <> [].
 Proof. eexists. split; [vm_compute; reflexivity | split; [vm_compute; reflexivity | vm_compute; discriminate]]. Qed.
+
+From Thunder Require Import Reactive.ProofsArmed Reactive.ProofsReach.
+
+(** Armed invariant + Edge invariant at quiescence.
+
+    FULL STATEMENT (DESIGN.md, not yet proved — see [no_lost_invalidation] below if present):
+      forall k progs s r, reachable (init k progs) s -> quiescent s -> r < length (s_rrs s) ->
+        r_cancel (getr s r) = false -> r_failed (getr s r) = false ->
+        exists c, r_comp (getr s r) = Some c /\
+          forall sl v, In (sl, v) (n_val (getN s c)) -> v = slot_ver s sl.
+
+    PROVED HERE (partial): at quiescence a rerunner that was neither stopped (cancelled) nor has failed holds
+    a published computation c whose rerun handler is armed, and neither c nor any node c depends on through
+    a chain of addOut edges (resources, cached children, their resources) is invalidated: no invalidation that
+    reached the graph was lost on its way to the rerunner, in whichever window it landed.  What this leaves
+    out is the link between "a version was superseded" and "the resource node was invalidated / strobed". *)
+Theorem no_lost_invalidation_partial :
+  forall k progs s r, reachable (init k progs) s -> quiescent s -> r < length (s_rrs s) ->
+  r_cancel (getr s r) = false -> r_failed (getr s r) = false ->
+  exists c, r_comp (getr s r) = Some c /\ n_hinv (getN s c) = Some r /\
+            forall n, reach (s_nodes s) n c -> n_inv (getN s n) = false.
+Proof.
+  intros k progs s r R Q Hr X1 X2.
+  destruct (quiescent_armed _ _ _ _ R Q Hr X1 X2) as [c [E1 [E2 E3]]].
+  exists c. split; [exact E1|]. split; [exact E2|].
+  intros n Hn. destruct (n_inv (getN s n)) eqn:I; [|reflexivity].
+  rewrite (quiescent_reach_closed _ _ _ R Q _ _ Hn I) in E3. discriminate.
+Qed.
+Print Assumptions no_lost_invalidation_partial.
+
+(** Stop cancels the context before it takes r.mu: a stopped rerunner is a cancelled one (the exemption above
+    is exactly "Stop was called"). *)
+Theorem stop_implies_cancelled :
+  forall k progs s r, reachable (init k progs) s -> r < length (s_rrs s) ->
+  r_stop (getr s r) = true -> r_cancel (getr s r) = true.
+Proof. exact stop_implies_cancel. Qed.
+Print Assumptions stop_implies_cancelled.
